@@ -23,6 +23,7 @@ mod tlv;
 mod cat;
 mod clock;
 mod driver;
+mod pure;
 mod rpc;
 mod sim;
 mod util;
@@ -64,6 +65,7 @@ fn main() {
             out.flush().unwrap();
             eprintln!("vfh: {} runs, {} diverged steps", n, div);
         }
+        "fee" => pure::fee(&args[2], &args[3]),
         m => {
             eprintln!("unknown mode {}", m);
             std::process::exit(2);
